@@ -8,7 +8,8 @@ every field always present (``normalize`` fills defaults) so that TLC can read
 it back with uniform types:
 
     {"name": "proj", "lang": "c" | "",            # "" = language-less (no compiler; only custom/run targets, data)
-     "layout": "mirror"|"flat", "deflib": "shared"|"static"|"both", "unity": "off"|"on",
+     "layout": "mirror"|"flat", "deflib": "shared"|"static"|"both", "unity": "off"|"on"|"subprojects",
+     "unity_size": 4,                               # passed as -Dunity_size only when it differs from 4
      "targets": [ {                                 # refs to other targets are 1-based indices of EARLIER targets
          "kind": "exe"|"static"|"shared"|"both"|"lib"|"custom"|"run"|"alias",
          "name": str, "subdir": "" | "sub" | "sub/deep", "sp": "" | "<subproject name>",
@@ -18,6 +19,7 @@ it back with uniform types:
          "genidx": [i ...],                         # custom targets only: input: t_i[0] (indexed output)
          "genlist": [basename.in ...],              # inputs run through generator() (-> @BASENAME@.c in the private dir)
          "link": [i ...],                           # link_with
+         "objs": [i ...],                           # objects: t_i.extract_all_objects(recursive: false)
          "bbd": "unset"|"true"|"false", "install": bool,
          "outs": [name ...],                        # custom target outputs ('.c' / '.h' / anything)
          "deps": [i ...],                           # custom_target depends: / run_target depends: / alias_target deps
@@ -31,7 +33,8 @@ it back with uniform types:
                     "dir_expr": "",      # raw meson expression used for install_dir: instead of the string (e.g.
                                          # "get_option('datadir') / 'x'"; then install_dir holds the expected
                                          # placeholder form "{datadir}/x")
-                    "strip": false} ],   # install_subdir(strip_directory:)
+                    "strip": false,      # install_subdir(strip_directory:)
+                    "preserve": false} ],# install_data / install_headers(preserve_path:); files may then be 'a/b/f.txt'
      "options": [ {"name": str, "type": "string"|"boolean"|"integer"|"combo"|"array"|"feature", "value": <text>,
                    "choices": [str], "sp": ""} ],   # meson.options + a message() line per option (C15)
      "show_builtins": [name...]                     # builtin options echoed with message() as well
@@ -78,7 +81,7 @@ UNREPRESENTABLE_NAMES = ['pi|pe']
 
 TARGET_DEFAULTS: T.Dict[str, T.Any] = {
     'kind': 'exe', 'name': 'foo', 'subdir': '', 'sp': '', 'srcs': [], 'gen': [], 'genidx': [], 'genlist': [], 'link': [],
-    'bbd': 'unset', 'install': False, 'outs': [], 'deps': [], 'extra': {},
+    'bbd': 'unset', 'install': False, 'outs': [], 'deps': [], 'extra': {}, 'objs': [],
 }
 TEST_DEFAULTS: T.Dict[str, T.Any] = {
     'name': 't', 'exe': 0, 'depends': [], 'args': [], 'sargs': [], 'bench': False, 'suite': [], 'env': [], 'sp': '',
@@ -86,10 +89,10 @@ TEST_DEFAULTS: T.Dict[str, T.Any] = {
 }
 CONF_DEFAULTS: T.Dict[str, T.Any] = {'subdir': '', 'out': 'conf.h', 'sp': ''}
 INSTALL_DEFAULTS: T.Dict[str, T.Any] = {'kind': 'data', 'subdir': '', 'sp': '', 'files': [], 'install_dir': '', 'tag': '',
-                                        'rename': [], 'extra': {}, 'dir_expr': '', 'strip': False}
+                                        'rename': [], 'extra': {}, 'dir_expr': '', 'strip': False, 'preserve': False}
 OPTION_DEFAULTS: T.Dict[str, T.Any] = {'name': 'o', 'type': 'string', 'value': '', 'choices': [], 'sp': ''}
 PROJECT_DEFAULTS: T.Dict[str, T.Any] = {
-    'name': 'proj', 'lang': 'c', 'layout': 'mirror', 'deflib': 'shared', 'unity': 'off', 'targets': [], 'tests': [],
+    'name': 'proj', 'lang': 'c', 'layout': 'mirror', 'deflib': 'shared', 'unity': 'off', 'unity_size': 4, 'targets': [], 'tests': [],
     'conf': [], 'installs': [], 'options': [], 'show_builtins': [],
 }
 BUILD_KINDS = ('exe', 'static', 'shared', 'both', 'lib')
@@ -112,7 +115,7 @@ def normalize(p: T.Dict[str, T.Any]) -> T.Dict[str, T.Any]:
     p['options'] = [_fill(dict(t), OPTION_DEFAULTS) for t in p['options']]
     for t in p['targets']:
         # TLC serialises empty sequences/records alike; make sure the types are what we expect
-        for k in ('srcs', 'gen', 'genidx', 'genlist', 'link', 'outs', 'deps'):
+        for k in ('srcs', 'gen', 'genidx', 'genlist', 'link', 'outs', 'deps', 'objs'):
             t[k] = list(t[k]) if t[k] else []
         t['extra'] = dict(t['extra']) if t['extra'] else {}
     for t in p['tests']:
@@ -155,7 +158,7 @@ def cident(s: str) -> str:
 
 
 def _refs(t: T.Dict[str, T.Any]) -> T.List[int]:
-    return list(t['gen']) + list(t.get('genidx', [])) + list(t['link']) + list(t['deps'])
+    return list(t['gen']) + list(t.get('genidx', [])) + list(t['link']) + list(t['deps']) + list(t.get('objs', []))
 
 
 def realizable(p: T.Dict[str, T.Any]) -> bool:
@@ -423,6 +426,8 @@ def _emit_target(p: T.Dict[str, T.Any], fs: _Files, i: int, t: T.Dict[str, T.Any
         kws: T.List[T.Tuple[str, str]] = []
         if t['link']:
             kws.append(('link_with', mlist(target_var(r) for r in t['link'])))
+        if t.get('objs'):
+            kws.append(('objects', mlist(f'{target_var(r)}.extract_all_objects(recursive: false)' for r in t['objs'])))
         if t['bbd'] != 'unset':
             kws.append(('build_by_default', t['bbd']))
         if t['install']:
@@ -497,6 +502,8 @@ def _emit_install(fs: _Files, k: int, it: T.Dict[str, T.Any], d: str) -> None:
         kws.append(('install_dir', mstr(it['install_dir'])))
     if kind == 'subdir' and it.get('strip'):
         kws.append(('strip_directory', 'true'))
+    if kind in ('data', 'headers') and it.get('preserve'):
+        kws.append(('preserve_path', 'true'))
     if it['tag']:
         kws.append(('install_tag', mstr(it['tag'])))
     if it['rename']:
@@ -562,6 +569,8 @@ def setup_args(p: T.Dict[str, T.Any]) -> T.List[str]:
     args = [f"-Dlayout={p['layout']}"]
     if p['lang']:
         args += [f"-Ddefault_library={p['deflib']}", f"-Dunity={p['unity']}"]
+        if p.get('unity_size', 4) != 4:
+            args.append(f"-Dunity_size={p['unity_size']}")
     return args
 
 
@@ -819,6 +828,16 @@ def random_data_project(rnd: random.Random, subprojects: bool = True) -> T.Dict[
                                       'tag': rnd.choice(['', '', 'custom-tag', 'devel', 'runtime'])}
             if kind in ('data', 'headers') and rnd.random() < 0.4:
                 it['install_dir'] = rnd.choice(['share/custom', 'opt/x y', '/abs/dir'])
+            if kind in ('data', 'headers') and rnd.random() < 0.35:
+                # sources in nested directories (same basename twice), kept with preserve_path
+                ext = 'txt' if kind == 'data' else 'h'
+                it['files'] = [f'p{k}.{ext}', f'one/p{k}.{ext}', f'one/two/p{k}.{ext}', f'one/two/q{k}.{ext}'][:rnd.randint(2, 4)]
+                it['preserve'] = True
+                if kind == 'data' and rnd.random() < 0.4:
+                    # (install_headers shows an option-derived directory without its placeholder; the manual is
+                    # silent on that, so only install_data gets one)
+                    it['install_dir'] = '{datadir}/tree%d' % k
+                    it['dir_expr'] = f"get_option('datadir') / 'tree{k}'"
             if kind == 'subdir':
                 # install_dir: default of projgen (share/sd), plain string, absolute, or derived from an option value
                 how = rnd.choice(['default', 'plain', 'abs', 'option', 'option'])
